@@ -65,6 +65,10 @@ CHECKS={
    text="Bounded-exhaustive: ALL inheritance graphs over 2..3 / 2..4 object types (ordered base lists of 0..2 bases each: chains, several bases, shared bases, diamonds, cycles) x 3 own-property patterns per type x ALL declaration orders x 8 hosts of a further inheriting schema (request, response, headers, query, nested property, nested property of a base whose heir is declared first / last); in every accepted document every property list must equal the reference inheritance computed from the graph, base types stay as declared; 11 negative cases rejected.",
    ref="DESIGN.md §5 C12", note="Documents rejected by the schema library (same key through two bases, cycles) are counted, not judged: the property is about accepted documents.",
    technique=T_MC+"bounded-exhaustive enumeration of inheritance graphs x declaration orders x hosts against a reference inheritance function"),
+ "C04":dict(engine="E-DOC",
+   text="Bounded-exhaustive abstract API models against a reference catalog computed from the model: the product of request form (10) x response list of length 0..2 over 9 forms (91) x query (4) x annotation x description x 5 placements for a focus HTTP method (deviation-bounded), all 64 JSON-RPC method shapes, all INFO subsets, SERVER, TYPE of every notation and body of a 10-body alphabet, ENUM, each at 3 positions; thorough also under CRLF, tabs and trailing comments. Oracle: every declared field equal, collections exactly the expected keys in source order, arrays of exactly the expected length, undeclared fields absent.",
+   ref="DESIGN.md §5 C04", note="Schema content is compared by a digest computed from the model for the body alphabet; the schema library is trusted for the rest of the AST. Unknown additional scalar fields are ignored (projection). Tags are C19's, path variables C13's.",
+   technique=T_MC+"bounded-exhaustive enumeration of abstract models against a reference catalog (reference model written from the property, never from the code)"),
 }
 ENGINES=[
  {"name":"E-SCAN","path":"internal/escan","serves_properties":["C14"],"kind_free_text":"explicit-state BFS over the real scanner.Next with a per-byte hook; abstract key cross-checked by second representatives"},
